@@ -77,6 +77,9 @@ class C15:
         # whose meaning changed are listed), so CPython 3.6 decides those
         for v in FAMILY_VERSIONS:
             yield {"t": "family", "v": v, "op": 0}
+        # PyPy's tables: an opcode PyPy shares with the CPython of its level (same name; PyPy renumbers a few) has CPython's effect
+        for v in ("3.6", "3.7", "3.8", "3.9", "3.10"):
+            yield {"t": "pypy", "v": v, "op": 0}
 
     def judge(self, case, ctx):
         res = Result()
@@ -94,6 +97,8 @@ class C15:
             return self.judge_host(case, ctx, res)
         if t == "family":
             return self.judge_family(case, ctx, res)
+        if t == "pypy" and v in VERSIONS:
+            return self.judge_family(case, ctx, res, pypy=True)
         if t == "range":
             lo, hi = case["lo"], case["hi"]
             r = w.call("stack_effect", ranges=[[op, lo, hi]], pairs=[[op, None]])
@@ -171,18 +176,26 @@ class C15:
         return res
 
 
-    def judge_family(self, case, ctx, res):
+    def judge_family(self, case, ctx, res, pypy=False):
         v = case["v"]
         vt = tuple(int(p) for p in v.split("."))
-        opc = self.x.disasm.get_opcode(vt, False)
-        ref = ctx.pool.ref("3.6")
+        try:
+            opc = self.x.disasm.get_opcode(vt, pypy)
+        except Exception:
+            res.reject = "no-such-table"
+            return res
+        ref = ctx.pool.ref(v if pypy else "3.6")
         t36 = ref.call("opcode_tables")
         xse = self.x.cross_dis.xstack_effect
         args = list(range(0, 300)) + [511, 512, 0x101, 0x203, 0xFFFF, 0x10001]
         n = 0
         keys = []
         for name, num in sorted(opc.opmap.items()):
-            if name.startswith("<") or name not in t36["opmap"] or name in FAMILY_CHANGED.get("*", ()) or name in FAMILY_CHANGED.get(v, ()):
+            if pypy:
+                # (PyPy 3.6 / 3.7 give CALL_FUNCTION_KW an effect of their own)
+                if name.startswith("<") or name not in t36["opmap"] or name in ("CALL_FUNCTION_KW", "EXTENDED_ARG"):
+                    continue
+            elif name.startswith("<") or name not in t36["opmap"] or name in FAMILY_CHANGED.get("*", ()) or name in FAMILY_CHANGED.get(v, ()):
                 continue
             exps = ref.call("stack_effect", ranges=[], pairs=[[t36["opmap"][name], a] for a in args])["pairs"]
             for a, exp in zip(args, exps):
@@ -194,8 +207,8 @@ class C15:
                 except Exception as e:
                     got = "raised %s" % type(e).__name__
                 if got != exp:
-                    res.fail("C15|%s|%s|family-3.6" % (v, name), "%s %s operand %d: xstack_effect %s; CPython 3.6, where the opcode has the same name and meaning, says %s" % (
-                        v, name, a, got, exp))
+                    res.fail("C15|%s%s|%s|family" % (v, "pypy" if pypy else "", name), "%s%s %s operand %d: xstack_effect %s; CPython %s, where the opcode has the same name and meaning, says %s" % (
+                        v, " (PyPy table)" if pypy else "", name, a, got, v if pypy else "3.6", exp))
                     break
             keys.append([v, name])
         res.evals = max(1, n)
